@@ -1441,3 +1441,57 @@ Proof.
   inversion E; subst; contradiction.
 Qed.
 End FilteredTrees.
+
+(* ------------------------------------------------------------------ what a listing leaves out *)
+
+Definition v_children (v : vtree) : list (bytes * vtree) := match v with VNode _ cs => cs | VMissing => [] end.
+
+Lemma observe_dir_cons skip p i n c cs :
+  v_children (observe skip p (Dir i ((n, c) :: cs))) =
+  (if dropped_link anc_repaired p c then [] else [(n, observe skip (path_append p n) c)]) ++
+  v_children (observe skip p (Dir i cs)).
+Proof.
+  unfold observe. cbn [observe_gen v_children]. rewrite orb_true_r. cbn [andb].
+  rewrite !andb_false_r. cbn [andb].
+  destruct (dropped_link anc_repaired p c); reflexivity.
+Qed.
+
+(* the entries of a directory as both listings report them: every entry except the symbolic links that resolve to the
+   directory itself or to one of its ancestors (by whole path components); nothing else is left out, in either mode *)
+Theorem observe_listing_exact skip p i cs n :
+  In n (names (v_children (observe skip p (Dir i cs)))) <->
+  exists c, In (n, c) cs /\ dropped_link anc_repaired p c = false.
+Proof.
+  induction cs as [|[m d] cs IH].
+  - cbn. split; [intros [] | intros [c [[] _]]].
+  - rewrite observe_dir_cons, names_app, in_app_iff, IH. split.
+    + intros [H|[c [Hin Hd]]].
+      * destruct (dropped_link anc_repaired p d) eqn:E; [destruct H|].
+        cbn [names map fst In] in H. destruct H as [H|[]]. subst. exists d. split; [left; reflexivity | exact E].
+      * exists c. split; [right; exact Hin | exact Hd].
+    + intros [c [[Hin|Hin] Hd]].
+      * injection Hin as -> ->. rewrite Hd. left. left. reflexivity.
+      * right. exists c. auto.
+Qed.
+
+Theorem dropped_link_spec p c : dropped_link anc_repaired p c = true <->
+  exists li rp t, c = Link li (Some rp) t /\ pip p rp = true.
+Proof.
+  split.
+  - destruct c as [| | |li [rp|] t]; cbn [dropped_link]; try discriminate. intros H. exists li, rp, t. auto.
+  - intros [li [rp [t [-> H]]]]. exact H.
+Qed.
+
+(* ---- d863e96 (repaired): the ancestor test was given the directory path as spelled (never an ancestor match for a
+   relative path) and the filtered listing had no test: a link up to the root of the tree stayed in the listing *)
+Definition w_rel_sub : bytes := [116; 114; 101; 101; 47; 115; 117; 98].                       (* tree/sub *)
+Definition w_abs_sub : bytes := [47; 120; 47; 116; 114; 101; 101; 47; 115; 117; 98].          (* /x/tree/sub *)
+Definition w_up : bytes := [117; 112].
+Definition w_t_up : tree := Dir (w_dir 12 100) [(w_up, Link w_li (Some w_rp) (File w_fa)); (w_a, File w_fa)].
+
+Lemma ancestor_links_unprotected_refuted :
+  anc_repaired w_rel_sub w_rp = false /\ anc_repaired w_abs_sub w_rp = true /\
+  names (v_children (observe_unprotected false w_abs_sub w_t_up)) = [w_up; w_a] /\
+  names (v_children (observe false w_abs_sub w_t_up)) = [w_a] /\
+  names (v_children (observe true w_abs_sub w_t_up)) = [w_a].
+Proof. repeat split; vm_compute; reflexivity. Qed.
